@@ -38,7 +38,7 @@ ASSUMPTIONS = ["preemption granularity is the source line of the two store files
                "concurrent clone may see the node without them; NodeIDs are distinct per (thread, graph) - the "
                "uniqueness check of add_node is not atomic with the insertion, which is outside this statement",
                "liveness beyond 'no thread is parked forever in this bounded run' is not claimed"]
-BUDGET = {"quick": 12000, "thorough": 400000}
+BUDGET = {"quick": 12000, "thorough": 150000}
 LEVEL = "exploration"
 MIN_LABEL_FRACTION = {"conc": 0.3, "seq": 0.15, "nontrivial": 0.2}
 
@@ -154,7 +154,7 @@ def _do(imp, op):
     elif k == "import_bad":
         imp.import_graph_from_string(graph_string=BAD_TEXT, graph_id=op[1])
     elif k == "add_node":
-        store.graph_handle(imp, op[1]).add_node(node_id=op[2], label="X", props={"p": "v"})
+        store.graph_handle(imp, op[1]).add_node(node_id=op[2], label="X", props={"p": "of-" + op[2]})
     elif k == "clone":
         store.graph_handle(imp, op[1]).clone_graph(new_graph_id=op[2])
     elif k == "delete":
@@ -186,7 +186,7 @@ def _model_do(M, op, fl):
             M.delete_graph(op[1])
     elif k == "add_node":
         try:
-            M.add_node(op[1], op[2], "X", {"p": "v"})
+            M.add_node(op[1], op[2], "X", {"p": "of-" + op[2]})
         except ModelRaise:
             pass
     elif k == "clone":
@@ -403,6 +403,16 @@ def run_conc(case, want_steps=False):
         ok, msg = _counters_ok(imp, fl)
         if not ok:
             v.append((f"{sig}/id-counter", f"{msg} | {ctx}"))
+        # every add_node tags its node with a property naming that node: a tag found on ANOTHER node means the
+        # internal identifier add_node wrote through was (also) somebody else's - handed out twice
+        for g in GIDS:
+            c = store.canon(imp, g)
+            for nid, d in (c["nodes"] if c else {}).items():
+                tag = d["props"].get("p")
+                if tag is not None and tag[0] == "str" and tag[1].startswith("of-") and tag[1] != "of-" + nid:
+                    v.append((f"{sig}/properties-written-to-another-node",
+                              f"node {nid!r} of {g} carries the properties of {tag[1][3:]!r} | {ctx}"))
+                    break
     nt = S.preemptions_done >= 1
     if nt:
         labels.add("nontrivial")
